@@ -571,7 +571,9 @@ def check_C19(sc, v, tier, seed, replay):
     _mc_stg(sc, v, tier)
     emu = online.prepare(sc)
     rnd = random.Random(seed * 1019 + 19)
-    shapes = [(1, 1, 1, 1, 1)] if tier == "quick" else [(1, 1, 1, 1, 1), (2, 2, 1, 2, 2), (3, 2, 2, 1, 3)]
+    # quick: the full lifecycle of one UE at every fault point, and a second shape faulted only while the *second* UE registers
+    # (a fault tolerated for later UEs only, or state left by the first UE, shows there)
+    shapes = [(1, 1, 1, 1, 1), (2, 1, 0, 0, 1)] if tier == "quick" else [(1, 1, 1, 1, 1), (2, 2, 1, 2, 2), (3, 2, 2, 1, 3)]
     jobs = []
     for si, s in enumerate(shapes):
         counts = dict(zip(("reg", "pdu", "svc", "rel", "dereg"), s))
@@ -583,7 +585,8 @@ def check_C19(sc, v, tier, seed, replay):
         # exit status 0 there once; that alarm was the check's, not the emulator's)
         pts = [("close", a) for a in range(reads)] + [("garbage", a) for a in range(reads) if a not in ignored]
         if tier == "quick":
-            pass
+            if si > 0:
+                pts = [(k, a) for (k, a) in pts if 5 <= a <= 8]       # reads 5..8: the second UE's registration
         elif si > 0:
             pts = rnd.sample(pts, min(len(pts), 24))
         # undecodable answers: all-ones, a truncated but well-started PDU, a single octet, random octets, more octets than the emulator's
@@ -595,8 +598,8 @@ def check_C19(sc, v, tier, seed, replay):
             if kind == "garbage":
                 # every consumed answer: all-ones, a truncated well-started PDU, and more octets than the read buffer holds (a reader
                 # that waits for "the rest" of an oversized message hangs); the single octet / random classes rotate
-                gs = [classes[0], classes[1 + pi % 2 * 3], classes[5]] if (tier == "quick" or si == 0) else [classes[pi % len(classes)]]
-                gs.append(classes[2 + pi % 2]) if tier == "quick" and pi % 3 == 0 else None
+                gs = [classes[0], classes[1 + pi % 2 * 3], classes[5]] if si == 0 else [classes[[0, 5, 4, 1, 2, 3][pi % len(classes)]]]
+                gs.append(classes[2 + pi % 2]) if tier == "quick" and si == 0 and pi % 3 == 0 else None
             for gi, g in enumerate(gs):
                 # one scenario for all fault runs of a shape; the AMF's optional-IE choices rotate with the seed (seed % 3 = 2: the
                 # five-IE DownlinkNASTransport and the long InitialContextSetupRequest are the messages replaced by garbage)
